@@ -92,3 +92,9 @@ func serObject(c *Case) map[string]any {
 	res := vrun.RunString("<?php\nclass C14P { public $a = 1; public $b = 'x'; }\n$s = serialize(new C14P());\necho $s, '|', gettype(unserialize($s));\n", "c14obj.php")
 	return map[string]any{"outcome": res.Outcome, "out": strings.TrimSpace(res.Out), "detail": res.Detail}
 }
+
+// {"k":"script","extra":{"src":"<?php ..."}}: a whole script through vrun.RunString (values built by the interpreter itself)
+func scriptCase(c *Case) map[string]any {
+	res := vrun.RunString(c.Extra["src"], "c14script.php")
+	return map[string]any{"outcome": res.Outcome, "out": res.Out, "detail": res.Detail}
+}
